@@ -217,6 +217,32 @@ def c17(tier):
     return runs
 
 
+def c14(tier):
+    q = tier == "quick"
+    full = 3 if q else 4
+    runs = [dict(harness="verifHarness_C14", args=[n, 0]) for n in range(0, full + 1)]
+    runs += [dict(harness="verifHarness_C14", args=[n, 2]) for n in range(0, full)]
+    runs.append(dict(harness="verifHarness_C14", args=[full + 1, 1]))
+    k = 2 if q else 3
+    for prefix in range(6):
+        for quote in range(5):
+            if quote == 4 and prefix != 0:
+                continue
+            for n in range(0, k + 1):
+                runs.append(dict(harness="verifHarness_C14_lit", args=[n, prefix, quote]))
+    return runs
+
+
+def c18(tier):
+    q = tier == "quick"
+    runs = []
+    n = 2 if q else 3
+    for e in range(E):
+        runs.append(dict(harness="verifHarness_C18", args=[n, e, (e + 3) % E]))
+    runs += fam(18, tier, cut=False, budget=1 if q else 2)
+    return runs
+
+
 def c10(tier):
     runs = s1_parser("verifHarness_C10", "C10/bad", tier, sig_extra=False)
     return runs + s2_errors(10, tier) + fam_mut(10, tier)
@@ -260,6 +286,10 @@ PROPS = {
                 bounds={"quick": "all byte strings of length <= 2 for the nine Parse* entry points, <= 3 for SplitRawStatements and the NextToken loop",
                         "thorough": "all byte strings of length <= 3 for the nine Parse* entry points, <= 4 for SplitRawStatements and the NextToken loop"},
                 outside="longer inputs; stack exhaustion by deep nesting"),
+    "C14": dict(level="model_checking", runs=cutpanics(c14), reach=["C14/both-accept", "C14/both-reject"],
+                bounds={"quick": "all byte strings of length <= 3 (and <= 2 after 'a.', dot-identifier mode); length 4 over the 24-symbol alphabet; literal templates: 6 prefixes x 5 quote forms (incl. back quote) x bodies of <= 2 arbitrary bytes x {end of input, followed by ' a'}",
+                        "thorough": "all byte strings of length <= 4 (<= 3 after 'a.'); length 5 over the alphabet; literal bodies of <= 3 bytes"},
+                outside="longer inputs (\\uHHHH and \\UHHHHHHHH escapes need 6 and 10 body bytes and are outside both bounds); the reference lexer is part of the trusted base"),
     "C15": dict(level="model_checking", runs=cutpanics(c15),
                 bounds={"quick": "all byte strings of length <= 2 for the three quoting functions", "thorough": "all byte strings of length <= 3"},
                 outside="longer strings (4-byte UTF-8 sequences are outside the quick and thorough bounds)"),
@@ -307,6 +337,10 @@ PROPS = {
                 bounds={"quick": "every node type (generated builders from go/types): children present/absent by symbolic bits with <= 2 present, and all children present (slices of 2) at depth 1 and 2; pruning at every node index, Inspect pruning, Preorder stop after every k; plus the trees of the 23 sentence families (<= 1 deviation)",
                         "thorough": "<= 3 present children, depth 2; families with <= 2 deviations"},
                 outside="trees deeper than the bounds that are not family instances"),
+    "C18": dict(level="model_checking", runs=c18, reach=["C18/ok"],
+                bounds={"quick": "x: all byte strings of length <= 2, y: one of 6 fixed inputs (valid, invalid, lexically broken, empty), every entry point paired with another one; plus every sentence of the 23 families (<= 1 deviation) with a fixed erroneous statement list in between",
+                        "thorough": "x of length <= 3; families with <= 2 deviations"},
+                outside="interleavings of goroutines are not explored (DESIGN.md section 8): race-freedom follows from the absence of writes to shared state by argument, not by schedule exploration"),
     "C19": dict(level="translation_validation", runs=cutpanics(c19), reach=["C19/checked", "C19/parsed"],
                 programs=lambda outs: 264,
                 bounds={"quick": "every node type: all position fields symbolic 64-bit (any value, negative = invalid), booleans symbolic, children absent/present by symbolic bits (<= 2 present; and all present), children built to depth 1 and 2, slices 0..2, strings of length 0/1/3; plus every node of the 23 sentence families (<= 1 deviation) on parser output",
